@@ -93,6 +93,10 @@ func genConc(seed uint64, prop string) *Scenario {
 		}
 		sc.Steps = append(sc.Steps, Step{T: "reader", Sess: 100 + i, Get: gs, A: 1 + r.IntN(3)})
 	}
+	if r.IntN(4) == 0 {
+		// the embedding device adds network instances at run time (Server.AddNetworkInstance)
+		sc.Steps = append(sc.Steps, Step{T: "ni-adder", Sess: 300, A: r.IntN(30), B: 1 + r.IntN(3)})
+	}
 	if r.IntN(3) == 0 {
 		for i := 0; i <= r.IntN(2); i++ {
 			fs := &FlushSpec{Override: true}
@@ -116,10 +120,12 @@ func runConc(e *env) {
 	}
 	plans := map[int]*sessPlan{}
 	var order []int
-	var readers, flushers []*Step
+	var readers, flushers, adders []*Step
 	for i := range e.sc.Steps {
 		st := &e.sc.Steps[i]
 		switch st.T {
+		case "ni-adder":
+			adders = append(adders, st)
 		case "s-elect", "s-ops", "s-leave":
 			p := plans[st.Sess]
 			if p == nil {
@@ -282,6 +288,20 @@ func runConc(e *env) {
 				problems = append(problems, fmt.Sprintf("flusher: %v", err))
 			}
 			e.probe("concurrent Flush completed")
+		})
+	}
+	for _, st := range adders {
+		st := st
+		want++
+		simrt.Go("conc-ni-adder", func() {
+			defer func() { done++ }()
+			for i := 0; i < st.B; i++ {
+				simrt.Yield("adder-delay", st.A)
+				if err := e.srv.AddNetworkInstance(fmt.Sprintf("LATE-%d", i)); err != nil {
+					problems = append(problems, fmt.Sprintf("AddNetworkInstance: %v", err))
+				}
+				e.probe("network instance added while RPCs are running")
+			}
 		})
 	}
 	if !simrt.WaitUntil("conc-join", "all clients finished", 2*time.Hour, func() bool { return done == want }) {
